@@ -232,6 +232,10 @@ class CF1D(Model):
             if axes in ('both', 'lon'):
                 lon_attrs['bounds'] = lon_name + '_bnds'
                 variables[lon_name + '_bnds'] = xarray.DataArray(self.lon_bounds, dims=[xdim, 'nv'])
+        elif e.get('dangling_bounds'):
+            # what `dataset[['temp']]` / `ncks -v temp` leave behind: the attribute names a variable that is gone
+            lat_attrs['bounds'] = lat_name + '_bnds'
+            lon_attrs['bounds'] = lon_name + '_bnds'
         cdt = e.get('coord_dtype', 'float64')
         assert numpy.array_equal(self.lat.astype(cdt), self.lat) and numpy.array_equal(self.lon.astype(cdt), self.lon)
         lat = xarray.DataArray(self.lat.astype(cdt), dims=[ydim], attrs=lat_attrs)
@@ -301,6 +305,8 @@ def make_cf1d(rng, *, ny=None, nx=None, bounds=None, coord_style=None, ident=Non
         m.encoding['bounds_axes'] = bounds_axes
     if bounds_rows != 'axis':
         m.encoding['bounds_rows'] = bounds_rows
+    if bounds == 'none' and chance(rng, 0.25):
+        m.encoding['dangling_bounds'] = True
     if ident == 'units':
         m.encoding['lat_units'] = pick(rng, ['degrees_north', 'degree_north', 'degrees_N', 'degreeN'])
         m.encoding['lon_units'] = pick(rng, ['degrees_east', 'degree_E', 'degreesE'])
@@ -350,6 +356,9 @@ class CF2D(Model):
             lon_attrs['bounds'] = lon_name + '_bounds'
             variables[lat_name + '_bounds'] = xarray.DataArray(self.lat_bounds, dims=[ydim, xdim, 'nv'])
             variables[lon_name + '_bounds'] = xarray.DataArray(self.lon_bounds, dims=[ydim, xdim, 'nv'])
+        elif e.get('dangling_bounds'):
+            lat_attrs['bounds'] = lat_name + '_bounds'
+            lon_attrs['bounds'] = lon_name + '_bounds'
         cy, cx = self.cy, self.cx
         if e.get('fortran_coords'):
             cy, cx = numpy.asfortranarray(cy), numpy.asfortranarray(cx)
@@ -411,6 +420,8 @@ def make_cf2d(rng, *, shoc=False, nj=None, ni=None, bounds=None, holes=None, coo
         m.encoding['transpose_lon'] = True
     if chance(rng, 0.15):
         m.encoding['fortran_coords'] = True
+    if bounds == 'none' and chance(rng, 0.25):
+        m.encoding['dangling_bounds'] = True
     m.kinds = {'face': Kind('face', (ydim, xdim), (nj, ni))}
     m.derived_geometry = bounds == 'none'
     m.skip_cells = set()
